@@ -5,11 +5,17 @@
   `fullmesh tol width miter_limit join cap1 cap2 closed n (x y)*` : the whole mesh of a polyline through the
   COMPLETE stroker model (`Model/Tess/StrokeFull.lean`, `tessellateFw`) — the model the theorems of
   `Props/C06b.lean` are about: emitted vertex positions in order, triangle ids.
+  `progmesh tol width miter_limit join cap1 cap2 ncmd (B x y | L x y | Q cx cy x y | C c1x c1y c2x c2y x y |
+   E close | R minx miny maxx maxy positive | P n closed (x y)* | S px py qx qy | O x y | SJ join | SS cap |
+   SE cap | SM ml)*` : a PROGRAM on one `StrokeBuilder` (the call histories of the checker families: earlier
+  sub-paths, shape helpers incl. thin rectangles, option setters, then the polyline under test) through the
+  program model `Model/Tess/StrokeBuilderProg.lean` (`tessellateProg`): every vertex position, every triangle.
 -/
 import LyonVerif.Drive.Common
 import LyonVerif.Drive.SlabIO
 import LyonVerif.Model.Tess.StrokeQuad
 import LyonVerif.Model.Tess.StrokeFull
+import LyonVerif.Model.Tess.StrokeBuilderProg
 
 namespace Lyon.Drive.C06
 open Lyon Lyon.Drive
@@ -73,10 +79,42 @@ def hFullMesh [HasIx α] [Asin α] [FlatConst α] (v : Array String) : String :=
     unwords (["ok", toString out.verts.length, toString out.tris.length, "v"]
       ++ out.verts.map (fun d => fp d.read.position) ++ ["t"] ++ out.tris.map showTri)
   | none => "panic"
+
+open Lyon.Stroke.Prog in
+/-- the calls of a program (no custom attributes: they do not influence positions) -/
+def rdCmds (v : Array String) : Nat → Nat → List (Cmd α)
+  | 0, _ => []
+  | n+1, i =>
+    match v.getD i "" with
+    | "B" => Cmd.begin (rdP v (i+1)) [] :: rdCmds v n (i + 3)
+    | "L" => Cmd.line (rdP v (i+1)) [] :: rdCmds v n (i + 3)
+    | "Q" => Cmd.quad (rdP v (i+1)) (rdP v (i+3)) [] :: rdCmds v n (i + 5)
+    | "C" => Cmd.cubic (rdP v (i+1)) (rdP v (i+3)) (rdP v (i+5)) [] :: rdCmds v n (i + 7)
+    | "E" => Cmd.end_ (v.getD (i+1) "0" == "1") :: rdCmds v n (i + 2)
+    | "R" => Cmd.rect (rdP v (i+1)) (rdP v (i+3)) (v.getD (i+5) "0" == "1") [] :: rdCmds v n (i + 6)
+    | "P" =>
+      let k := rdNat v (i+1)
+      Cmd.polygon (rdPtsN v k (i+3)) (v.getD (i+2) "0" == "1") [] :: rdCmds v n (i + 3 + 2 * k)
+    | "S" => Cmd.segment (rdP v (i+1)) (rdP v (i+3)) [] :: rdCmds v n (i + 5)
+    | "O" => Cmd.point (rdP v (i+1)) [] :: rdCmds v n (i + 3)
+    | "SJ" => Cmd.setJoin (joinOf (v.getD (i+1) "")) :: rdCmds v n (i + 2)
+    | "SS" => Cmd.setStartCap (capOf (v.getD (i+1) "")) :: rdCmds v n (i + 2)
+    | "SE" => Cmd.setEndCap (capOf (v.getD (i+1) "")) :: rdCmds v n (i + 2)
+    | _ => Cmd.setMiterLimit (rd v (i+1)) :: rdCmds v n (i + 2)
+
+open Lyon.Stroke.Prog in
+def hProgMesh [HasIx α] [Asin α] [FlatConst α] (v : Array String) : String :=
+  let o : Opts α := ⟨rd v 0, rd v 1, rd v 2, joinOf (v.getD 3 ""), capOf (v.getD 4 ""), capOf (v.getD 5 ""), false, 0⟩
+  match tessellateProg o HasIx.ix (rdCmds v (rdNat v 6) 7) with
+  | some out =>
+    unwords (["ok", toString out.verts.length, toString out.tris.length, "v"]
+      ++ out.verts.map (fun d => fp d.read.position) ++ ["t"] ++ out.tris.map showTri)
+  | none => "panic"
 end FullMesh
 
 def families : List Family := [
   ⟨"fullmesh", hFullMesh (α := Float32), hFullMesh (α := Float)⟩,
+  ⟨"progmesh", hProgMesh (α := Float32), hProgMesh (α := Float)⟩,
   ⟨"normal", hNormal (α := Float32), hNormal (α := Float)⟩,
   ⟨"stroke2", hStroke2 (α := Float32), hStroke2 (α := Float)⟩,
   Family.plain "chk_cover" chk,
